@@ -33,7 +33,7 @@ func Expected(h History) [][][]RefSample {
 		started := make([]bool, len(s.Tracks))
 		for _, u := range s.Units {
 			t := s.Tracks[u.Track]
-			video := t.Kind == KindH264
+			video := IsVideoKind(t.Kind)
 			if video && !started[u.Track] && !u.IDR {
 				step++
 				continue
